@@ -292,6 +292,17 @@ fn run_v<V: VringT<GM<()>> + Clone + Send + Sync + 'static>(sim: &Sim, _cfg: &Ru
         }
         let now = log.lock().unwrap().update_memory;
         let is_table_op = !matches!(op, Op::Probe { .. });
+        if is_table_op && expect_ok {
+            // what the backend was given at its notification is the new table, not the old one
+            let at_cb = log.lock().unwrap().update_memory_table.clone();
+            if at_cb != want {
+                viol(
+                    "table_at_notification_differs",
+                    name.to_string(),
+                    format!("step {step} {op:x?}: inside update_memory the backend saw {at_cb:x?}, the table after this update is {want:x?}"),
+                );
+            }
+        }
         let want_updates = updates + (is_table_op && expect_ok) as u64;
         if now != want_updates {
             viol("update_memory_count", name.to_string(), format!("step {step} {op:x?}: update_memory called {} times for this step, expected {}", now - updates, want_updates - updates));
